@@ -70,42 +70,63 @@ func (line *Line) ContainsLine(other *Line) bool {
 	if line == nil || other == nil || line.Empty() || other.Empty() {
 		return false
 	}
-	// locate the first "other" segment that contains the first "line" segment.
-	lineNumSegments := line.NumSegments()
-	segIdx := -1
-	for j := 0; j < lineNumSegments; j++ {
-		if line.SegmentAt(j).ContainsSegment(other.SegmentAt(0)) {
-			segIdx = j
-			break
-		}
-	}
-	if segIdx == -1 {
-		return false
-	}
+	// every segment of other must be covered by the segments of line
 	otherNumSegments := other.NumSegments()
-	for i := 1; i < otherNumSegments; i++ {
-		lineSeg := line.SegmentAt(segIdx)
-		otherSeg := other.SegmentAt(i)
-		if lineSeg.ContainsSegment(otherSeg) {
-			continue
-		}
-		if otherSeg.A == lineSeg.A {
-			// reverse it
-			if segIdx == 0 {
-				return false
-			}
-			segIdx--
-			i--
-		} else if otherSeg.A == lineSeg.B {
-			// forward it
-			if segIdx == lineNumSegments-1 {
-				return false
-			}
-			segIdx++
-			i--
+	for i := 0; i < otherNumSegments; i++ {
+		if !line.coversSegment(other.SegmentAt(i)) {
+			return false
 		}
 	}
 	return true
+}
+
+// coversSegment returns true if every point of seg lies on the line. The
+// segment is covered when both ends are on the line and, at each end and at
+// every line vertex inside it, the line carries on along the segment in the
+// direction that is still to be covered.
+func (line *Line) coversSegment(seg Segment) bool {
+	if !line.ContainsPoint(seg.A) || !line.ContainsPoint(seg.B) {
+		return false
+	}
+	if seg.A == seg.B {
+		return true
+	}
+	fwd := Point{seg.B.X - seg.A.X, seg.B.Y - seg.A.Y}
+	rev := Point{seg.A.X - seg.B.X, seg.A.Y - seg.B.Y}
+	if !line.coveredFrom(seg, seg.A, fwd) || !line.coveredFrom(seg, seg.B, rev) {
+		return false
+	}
+	covered := true
+	line.Search(seg.Rect(), func(lseg Segment, _ int) bool {
+		for _, p := range [2]Point{lseg.A, lseg.B} {
+			if p != seg.A && p != seg.B && seg.ContainsPoint(p) {
+				if !line.coveredFrom(seg, p, fwd) || !line.coveredFrom(seg, p, rev) {
+					covered = false
+					return false
+				}
+			}
+		}
+		return true
+	})
+	return covered
+}
+
+// coveredFrom returns true if some segment of the line that is collinear with
+// seg contains the point and extends beyond it in the given direction.
+func (line *Line) coveredFrom(seg Segment, point, dir Point) bool {
+	found := false
+	line.Search(Rect{point, point}, func(lseg Segment, _ int) bool {
+		if lseg.A != lseg.B &&
+			seg.CollinearPoint(lseg.A) && seg.CollinearPoint(lseg.B) &&
+			lseg.ContainsPoint(point) &&
+			((lseg.A.X-point.X)*dir.X+(lseg.A.Y-point.Y)*dir.Y > 0 ||
+				(lseg.B.X-point.X)*dir.X+(lseg.B.Y-point.Y)*dir.Y > 0) {
+			found = true
+			return false
+		}
+		return true
+	})
+	return found
 }
 
 func (line *Line) IntersectsLine(other *Line) bool {
